@@ -122,11 +122,13 @@ def build_landmark(it, pcls, name, v1, v2, offset, offset_id):
                                           offset], dict(offset_id=offset_id, vertices=[v1, v2]))
 
 
-def build_param(it, cls, name):
+def build_param(it, cls, name, pid=None):
     pcls = "PoseSE2" if cls == "G2OParameterSE2Offset" else "PoseSE3"
     tag = "PARAMS_SE2OFFSET" if pcls == "PoseSE2" else "PARAMS_SE3OFFSET"
-    it.int_tokens.add(Poly.var("pid_" + name).key())
-    return it.construct(cls, [(tag, Poly.var("pid_" + name)), sym_pose(pcls, "pv_" + name, unit=True)])
+    if pid is None:
+        pid = Poly.var("pid_" + name)
+        it.int_tokens.add(pid.key())
+    return it.construct(cls, [(tag, pid), sym_pose(pcls, "pv_" + name, unit=True)])
 
 
 def expect_str(s, what):
